@@ -408,6 +408,12 @@ impl Minifier
 		self.minified_program = String::new();
 		self.pass = 2;
 		self.set_line_ref_map()?;
+		// a line that takes over the references of a deleted line is now a branch target itself
+		for (deleted,replacement) in &self.line_map {
+			if self.linenum_refs.contains(deleted) {
+				self.linenum_refs.insert(*replacement);
+			}
+		}
 		let mut parser = tree_sitter::Parser::new();
 		parser.set_language(&tree_sitter_applesoft::language()).expect("error loading applesoft grammar");
 		for line in program.lines() {
